@@ -101,7 +101,7 @@ mod v_iface_route {
         }
     }
 
-    // @harness props=C16 cfg=KI4,KI6 tier=q to=600 mem=4 unwind=KI4:8,KI6:18 opts=nomem covers=4 funcs=route::Routes::lookup;route::Routes::update;IpCidr::contains_addr bounds=table_of_0..=2_routes_(IFACE_MAX_ROUTE_COUNT=2);_any_network_address_and_any_prefix_length_0..=32_(0..=128_for_IPv6),_any_unicast_gateway,_any_expires_at/preferred_until_or_none;_any_unicast_destination;_any_instant_(microseconds)
+    // @harness props=C16 cfg=KI4,KI6 tier=q to=600 mem=8 unwind=KI4:8,KI6:18 opts=nomem covers=4 funcs=route::Routes::lookup;route::Routes::update;IpCidr::contains_addr bounds=table_of_0..=2_routes_(IFACE_MAX_ROUTE_COUNT=2);_any_network_address_and_any_prefix_length_0..=32_(0..=128_for_IPv6),_any_unicast_gateway,_any_expires_at/preferred_until_or_none;_any_unicast_destination;_any_instant_(microseconds)
     #[kani::proof]
     pub(crate) fn route_longest_prefix() {
         let now = any_instant(0, T_MAX);
@@ -148,7 +148,7 @@ mod v_iface_route {
         a.cidr == b.cidr && a.via_router == b.via_router && a.preferred_until == b.preferred_until && a.expires_at == b.expires_at
     }
 
-    // @harness props=C16 cfg=KI4,KI6 tier=q to=600 mem=8 unwind=KI4:8,KI6:18 opts=nomem covers=4 funcs=route::Routes::add_default_ipv4_route;route::Routes::add_default_ipv6_route;route::Routes::remove_default_ipv4_route;route::Routes::remove_default_ipv6_route;route::Routes::get_default_ipv4_route;route::Routes::lookup bounds=table_of_0..=2_routes_with_at_most_one_default_route;_any_unicast_gateway;_any_unicast_destination
+    // @harness props=C16 cfg=KI4 tier=q to=600 mem=8 unwind=8 opts=nomem covers=4 funcs=route::Routes::add_default_ipv4_route;route::Routes::add_default_ipv6_route;route::Routes::remove_default_ipv4_route;route::Routes::remove_default_ipv6_route;route::Routes::get_default_ipv4_route;route::Routes::lookup bounds=table_of_0..=2_routes_with_at_most_one_default_route;_any_unicast_gateway;_any_unicast_destination;_IPv4_only_(under_KI6_the_same_harness_runs_out_of_8_GB)
     #[kani::proof]
     pub(crate) fn route_default_gateway() {
         let now = any_instant(0, T_MAX);
